@@ -175,7 +175,10 @@ func eigensystem(a Matrix, inSitu *InSitu, computeEigenvectors, symmetric bool, 
     for i := 0; i < n; i++ {
       eigenvalues.At(i).Set(h.ConstAt(i,i))
     }
-    // no need to copy eigenvectors in this case
+    // the QR algorithm accumulates the eigenvectors in u
+    if eigenvectors != nil && u != nil && u != eigenvectors {
+      eigenvectors.Set(u)
+    }
 
     sortEigensystem(eigenvectors, eigenvalues)
   } else {
@@ -226,9 +229,14 @@ func Run(a Matrix, args_ ...interface{}) (Vector, Matrix, error) {
   }
   if inSitu.Eigenvectors == nil && computeEigenvectors {
     inSitu.Eigenvectors = NullDenseMatrix(t, n, n)
-    if symmetric {
+  }
+  if symmetric {
+    // the symmetric QR algorithm accumulates the eigenvectors
+    // directly in its U
+    if computeEigenvectors {
       inSitu.QrAlgorithm.U = inSitu.Eigenvectors
     }
+    args = append(args, qrAlgorithm.Symmetric{true})
   }
-  return eigensystem(a, inSitu, computeEigenvectors, symmetric, args)
+  return eigensystem(a, inSitu, computeEigenvectors, symmetric, args...)
 }
